@@ -135,6 +135,9 @@ def run(ctx):
     U33 = [F(0)] * 4 + [F(3, 20)] * 4 + [F(11, 20)] * 2 + [F(3, 4)] + [F(1)] * 4
     run_case(ctx, ser(dict(kind="insert", U=U33, P=[(F(i),) for i in range(11)], W=None, nodes=[F(3, 20) - F(1, 10**20)])))
     run_case(ctx, ser(dict(kind="insert", U=U33, P=[(F(i),) for i in range(11)], W=[F(7, 3)] * 11, nodes=[F(3, 20) - F(1, 10**20)])))
+    # D35: excess multiplicity hidden behind a near-duplicate value
+    run_case(ctx, ser(dict(kind="insert", U=[F(-2)] * 4 + [F(2, 5)] * 3 + [F(1)] * 4, P=[(F(i),) for i in range(7)], W=None,
+                           nodes=[F(3999999999, 10**10), F(2, 5), F(2, 5)])))
     for i in range(budget(ctx, 160, 2500)):
         U, P, W = rand_curve(rng, bigknots=(rng.random() < 0.1), force_zero=(i % 6 == 0))
         if i % 8 == 5:
